@@ -125,6 +125,16 @@ PROPERTIES = {
         "bounds_statement": "trees of N ascending entries (all layer assignments; in memory, persisted+reloaded), never-populated and emptied trees; cursor placed by Min / Max / Ceil(symbolic probe), then S symbolic Forward/Backward steps with Get after each; SeekIter from a symbolic probe with ErrIterDone at every position",
         "assumptions": COMMON_ASSUMPTIONS,
     },
+    "C12": {
+        "runs": {
+            "quick": [H("HarnessC12a", b(N=3, PRE=0, F=3))],
+            "thorough": [H("HarnessC12a", b(N=3, PRE=0, F=5), sample_every=1000), H("HarnessC12a", b(N=2, PRE=1, F=3), sample_every=1000), H("HarnessC12a", b(N=3, PRE=1, F=4), sample_every=3000)],
+        },
+        "must_reach": ["C12.contents-unchanged", "C12.size-unchanged", "C12.retry-result", "C12.contents-after-retry"],
+        "bounds_statement": "tree of N ascending entries persisted and re-loaded (every node behind a Load), PRE successful modifications (dirty in-memory path above persisted children), then one of Insert/Delete/Get/Iter/Clone/Cursor(Ceil,Forward,Backward)/DiffIter with a fault at the n-th Persist.Load or the n-th KeyCompare call of that operation (n < F); after an error: Size, Height, full Iter, Get(probe) against the pre-operation model, then the same call retried without the fault",
+        "outside": ["faults in Marshal (only reached from MakeRoot with this key type)", "two simultaneous faults", "panics raised by validateNode when KeyCompare fails (the statement is about calls that return an error)"],
+        "assumptions": COMMON_ASSUMPTIONS,
+    },
     "C13": {
         "runs": {
             "quick": [H("HarnessC13a", b(N=3, B=1, RELOAD=1))],
